@@ -3,8 +3,8 @@
 \* character class of the lexer (string/escape/comment delimiters, digits, hex/exponent letters,
 \* underscore, sign, dot, braces, newline, non-ASCII).
 EXTENDS Naturals, Sequences, TLC, Json
-CONSTANT MaxLen
-Alpha == {34, 92, 117, 123, 125, 48, 120, 88, 95, 97, 47, 42, 10, 32, 46, 101, 45, 233, 40, 41, 58, 59}
+CONSTANTS MaxLen, Kind    \* Kind = "lex": one character per lexer class;  "num": the characters numerals are made of
+Alpha == IF Kind = "num" THEN {48, 49, 95, 120, 88, 102, 43, 45, 46, 101} ELSE {34, 92, 117, 123, 125, 48, 120, 88, 95, 97, 47, 42, 10, 32, 46, 101, 45, 233, 40, 41, 58, 59}
 VARIABLE s
 Init == s = <<>>
 Next == Len(s) < MaxLen /\ \E c \in Alpha : s' = Append(s, c)
